@@ -69,7 +69,8 @@ def req_spec(scheme, shape, tok, timeouts):
 
 
 def run(case, sync):
-    pool_cfg, cfg, scheme = topo(case["kind"], plans={"s0": {"framing": "chunked", "chunks": [3], "body_len": 10}})
+    # (the first response is preceded by an interim 103: with 20-byte reads the final status line arrives in a later read than the interim one)
+    pool_cfg, cfg, scheme = topo(case["kind"], plans={"s0": {"framing": "chunked", "chunks": [3], "body_len": 10, "interim": [103]}})
     world = World(peer_factory=cfg.peer_factory, seg=[20])
     pool = build_pool(world, pool_cfg, sync=sync)
     t1 = tdict(case["combo"], VALUES)
